@@ -111,6 +111,7 @@ type row struct {
 	Req    []int    `json:"req"`
 	VW     []vwit   `json:"vw"`
 	BW     []bwit   `json:"bw"`
+	Ord    []lock   `json:"ord"` // non-empty: the inputs in the order the ledger sees them
 	Accept bool     `json:"accept"`
 	Silent bool     `json:"silent"`
 	Why    []string `json:"why"`
@@ -124,7 +125,11 @@ func lockName(l lock) string {
 }
 
 func (r *row) normalise() {
-	sort.Slice(r.Ins, func(i, j int) bool { return lockName(r.Ins[i]) < lockName(r.Ins[j]) })
+	if len(r.Ord) > 0 {
+		r.Ins = append([]lock{}, r.Ord...)
+	} else {
+		sort.Slice(r.Ins, func(i, j int) bool { return lockName(r.Ins[i]) < lockName(r.Ins[j]) })
+	}
 	sort.Slice(r.Coll, func(i, j int) bool { return lockName(r.Coll[i]) < lockName(r.Coll[j]) })
 	sort.Ints(r.Req)
 	sort.Slice(r.VW, func(i, j int) bool {
@@ -157,6 +162,10 @@ func (r *row) caseKey() string {
 	var ins, coll, req, vw, bw []string
 	for _, l := range r.Ins {
 		ins = append(ins, lockName(l))
+	}
+	if len(r.Ord) > 0 {
+		// an ordered case: "a>b" = a is the first input
+		ins = []string{strings.Join(ins, ">")}
 	}
 	for _, l := range r.Coll {
 		coll = append(coll, lockName(l))
@@ -344,8 +353,11 @@ func (u *universe) address(l lock) []byte {
 
 // utxoRef is the (fixed) output reference of the output with lock l in role
 // "in" or "coll".
-func utxoRef(role string, l lock) ([]byte, uint64) {
+// pos is the place of the input in the ledger's order: the references sort
+// (by transaction id) the way the case lists its inputs.
+func utxoRef(role string, l lock, pos int) ([]byte, uint64) {
 	h := blake2b.Sum256([]byte("c28:" + role + ":" + lockName(l)))
+	h[0] = byte(0x10 + 0x40*pos)
 	ix := uint64(len(lockName(l)) % 3)
 	if role == "coll" {
 		ix += 3
@@ -440,9 +452,13 @@ func eras(u *universe) ([]*eraEnv, error) {
 		}
 		// the fixed UTxO set: one output per lock and role
 		var utxos []common.Utxo
-		for _, role := range []string{"in", "coll"} {
+		for _, rp := range []struct {
+			role string
+			pos  int
+		}{{"in", 0}, {"in", 1}, {"in", 2}, {"coll", 0}} {
+			role := rp.role
 			for _, l := range allLocks {
-				txid, ix := utxoRef(role, l)
+				txid, ix := utxoRef(role, l, rp.pos)
 				o, err := e.decodeOut(cArr(cBytes(u.address(l)), cUint(50_000_000)))
 				if err != nil {
 					return nil, fmt.Errorf("%s: output with %s address does not decode: %w", e.name, lockName(l), err)
@@ -513,12 +529,12 @@ func build(e *eraEnv, u *universe, r *row, seed int64) (*built, error) {
 		set = func(items ...[]byte) []byte { return cTag(258, cArr(items...)) }
 	}
 	var ins, coll, req [][]byte
-	for _, l := range r.Ins {
-		txid, ix := utxoRef("in", l)
+	for i, l := range r.Ins {
+		txid, ix := utxoRef("in", l, i)
 		ins = append(ins, cArr(cBytes(txid), cUint(ix)))
 	}
 	for _, l := range r.Coll {
-		txid, ix := utxoRef("coll", l)
+		txid, ix := utxoRef("coll", l, 0)
 		coll = append(coll, cArr(cBytes(txid), cUint(ix)))
 	}
 	for _, k := range r.Req {
@@ -658,7 +674,7 @@ func main() {
 	// come back from the decoded output as the lock the row means
 	for _, e := range envs {
 		for _, l := range allLocks {
-			txid, ix := utxoRef("in", l)
+			txid, ix := utxoRef("in", l, 2)
 			ut, err := e.ls.UtxoById(shelley.NewShelleyTransactionInput(hex.EncodeToString(txid), int(ix)))
 			if err != nil || ut.Output == nil {
 				rep.Dead("%s: mock ledger does not return the %s output: %v", e.name, lockName(l), err)
